@@ -352,14 +352,41 @@ def rule_p4(f, R):
     return found
 
 
+_REPO = []
+
+
+def with_helpers(f, depth=2):
+    """f and the private functions of the same module it calls (row parsing may live in a helper)"""
+    out = [f]
+    if not _REPO:
+        return out
+    repo = _REPO[0]
+    seen = {f}
+    work = [(f, 0)]
+    while work:
+        g, d = work.pop()
+        if d >= depth:
+            continue
+        for n in ast.walk(g.node):
+            if isinstance(n, ast.Call) and isinstance(n.func, ast.Name) and n.func.id.startswith("_"):
+                h = repo.resolve_name(g.module, n.func.id, g)
+                if hasattr(h, "node") and h.module is f.module and h not in seen:
+                    seen.add(h)
+                    out.append(h)
+                    work.append((h, d + 1))
+    return out
+
+
 def row_patterns(f):
-    _CONST_SCOPE[:] = [(f.node, f.module)]
     out = []
-    for c in calls_in(f.node, "re.search") + calls_in(f.node, "re.match") + calls_in(f.node, "re.fullmatch"):
-        pat = const_str(c.args[0]) if c.args else None
-        if pat is None:
-            raise AnalysisError("P3", "row pattern is not a constant", f.where(c))
-        out.append((c, pat))
+    for g in with_helpers(f):
+        _CONST_SCOPE[:] = [(g.node, g.module)]
+        for c in calls_in(g.node, "re.search") + calls_in(g.node, "re.match") + calls_in(g.node, "re.fullmatch"):
+            pat = const_str(c.args[0]) if c.args else None
+            if pat is None:
+                raise AnalysisError("P3", "row pattern is not a constant", g.where(c))
+            out.append((c, pat, g))
+    _CONST_SCOPE[:] = [(f.node, f.module)]
     return out
 
 
@@ -370,7 +397,7 @@ def rule_p3(f, R):
     rows = row_patterns(f)
     if not rows:
         raise AnalysisError("P3", f"no row pattern (re.search) in {f.qualname}", f.where())
-    for c, pat in rows:
+    for c, pat, _g in rows:
         classes = char_classes(pat)
         toks = [s for s in classes if s & set("0123456789")]
         if not toks:
@@ -383,7 +410,7 @@ def rule_p3(f, R):
         R.check(regex_groups(pat) == 2, "P3", f.site, f"groups of {pat[:40]!r}",
                 "the row pattern must capture (exponent, coefficient list)", where=f.where(c), expected=2, found=regex_groups(pat))
     n_float = 0
-    for c in calls_in(f.node, "float"):
+    for c in [x for g in with_helpers(f) for x in calls_in(g.node, "float")]:
         n_float += 1
         a = c.args[0] if c.args else None
         ok = (isinstance(a, ast.Call) and isinstance(a.func, ast.Attribute) and a.func.attr == "replace"
@@ -396,7 +423,7 @@ def rule_p3(f, R):
                 where=f.where(c), expected="float(x.lower().replace('d', 'e'))", found=ast.unparse(c))
     if n_float < 2:
         raise AnalysisError("P3", f"expected >= 2 float() conversions in {f.qualname}, found {n_float}", f.where())
-    return [p for _c, p in rows]
+    return [p for _c, p, _g in rows]
 
 
 def rule_p9(f, R):
@@ -407,20 +434,42 @@ def rule_p9(f, R):
     fn = f.node
     D = Defs(fn)
     n = 0
-    for c, _pat in row_patterns(f):
+    for c, _pat, g in row_patterns(f):
+        fn = g.node
         chain = enclosing_stmt_chain(fn, c)
         loops = [st for st in chain if isinstance(st, ast.For)]
         if not loops:
-            raise AnalysisError("P9", "row pattern is not applied inside a loop over lines", f.where(c))
+            raise AnalysisError("P9", "row pattern is not applied inside a loop over lines", g.where(c))
         loop = loops[-1]
         if not (isinstance(loop.target, ast.Name) and len(c.args) >= 2 and ast.unparse(c.args[1]) == loop.target.id):
-            raise AnalysisError("P9", "row loop idiom not recognised (pattern not applied to the loop variable)", f.where(c))
-        it = loop.iter
+            raise AnalysisError("P9", "row loop idiom not recognised (pattern not applied to the loop variable)", g.where(c))
+        its = [loop.iter]
+        if g is not f and isinstance(loop.iter, ast.Name) and loop.iter.id in g.params and not [
+                n2 for n2 in ast.walk(fn) if isinstance(n2, ast.Name) and n2.id == loop.iter.id and isinstance(n2.ctx, ast.Store)]:
+            # the helper iterates its parameter: what the parser hands over at each call site is what is examined
+            k = g.params.index(loop.iter.id)
+            sites = [n2 for n2 in ast.walk(f.node) if isinstance(n2, ast.Call) and isinstance(n2.func, ast.Name) and n2.func.id == g.name]
+            its = []
+            for sc_ in sites:
+                a = sc_.args[k] if len(sc_.args) > k else next((kw.value for kw in sc_.keywords if kw.arg == loop.iter.id), None)
+                if a is None:
+                    raise AnalysisError("P9", f"call of {g.name} without its lines argument", f.where(sc_))
+                its.append(a)
+            fn = f.node
+            loop_line = min(sc_.lineno for sc_ in sites) if sites else loop.lineno
+        for it in its:
+            n += _p9_one(R, f, g, fn, loop, it)
+    return n
+
+
+def _p9_one(R, f, g, fn, loop, it):
+    if True:
         seen = []
+        limit = loop.lineno if fn is g.node else getattr(it, "lineno", 10 ** 9) + 1
         while isinstance(it, ast.Name):
             # resolve through rebindings `x = x.split(...)` / `lines = text.split(...)`: the binding that reaches the loop
             cands = [st for st in ast.walk(fn) if isinstance(st, ast.Assign) and len(st.targets) == 1 and isinstance(st.targets[0], ast.Name)
-                     and st.targets[0].id == it.id and st.lineno < loop.lineno and st not in seen]
+                     and st.targets[0].id == it.id and st.lineno < limit and st not in seen]
             if not cands:
                 break
             st = max(cands, key=lambda x: x.lineno)
@@ -445,8 +494,7 @@ def rule_p9(f, R):
         R.check(not exits, "P9", f.site, "non-matching line skipped with continue",
                 "the row loop can end early (break/return): rows after a non-matching line would be lost", where=f.where(exits[0] if exits else loop),
                 expected="continue", found=[type(x).__name__ for x in exits])
-        n += 1
-    return n
+    return 1
 
 
 def rule_store(repo, R):
@@ -516,6 +564,33 @@ def rule_p5_producer(f, R):
             a, b = n.targets[0].elts
             exp_names.add(a.id)
             coeff_names.add(b.id)
+    # rows parsed in a private helper: the roles of the helper's returned tuple carry over to the names bound at the call
+    for g in with_helpers(f)[1:]:
+        gD = Defs(g.node)
+        g_exp, g_coef = set(), set()
+        for n in walk_no_nested(g.node):
+            if isinstance(n, ast.Assign) and isinstance(n.value, ast.Call) and isinstance(n.value.func, ast.Attribute) \
+                    and n.value.func.attr == "groups" and isinstance(n.targets[0], ast.Tuple) and len(n.targets[0].elts) == 2:
+                g_exp.add(n.targets[0].elts[0].id)
+                g_coef.add(n.targets[0].elts[1].id)
+        rets = [n for n in walk_no_nested(g.node) if isinstance(n, ast.Return) and isinstance(n.value, ast.Tuple)]
+        if not g_exp or len(rets) != 1:
+            continue
+        kinds = []
+        for elt in rets[0].value.elts:
+            nm = gD.slice_names(elt)
+            kinds.append(("E" if nm & g_exp else "") + ("C" if nm & g_coef else ""))
+        for n in walk_no_nested(fn):
+            if isinstance(n, ast.Assign) and isinstance(n.value, ast.Call) and isinstance(n.value.func, ast.Name) and n.value.func.id == g.name \
+                    and isinstance(n.targets[0], ast.Tuple) and len(n.targets[0].elts) == len(kinds):
+                for tgt, kd in zip(n.targets[0].elts, kinds):
+                    if isinstance(tgt, ast.Name) and kd == "E":
+                        exp_names.add(tgt.id)
+                    elif isinstance(tgt, ast.Name) and kd == "C":
+                        coeff_names.add(tgt.id)
+                    elif isinstance(tgt, ast.Name) and kd:
+                        exp_names.add(tgt.id)
+                        coeff_names.add(tgt.id)  # mixed: will fail the record-order rule
     if not exp_names:
         raise AnalysisError("P5", "unpacking of the row match groups not found", f.where())
 
@@ -602,6 +677,23 @@ def rule_make_contractions(repo, f, R):
         amap[k.arg] = k.value
     chain = enclosing_stmt_chain(fn, call)
     loops = [s for s in chain if isinstance(s, ast.For)]
+    comp_list = None
+    if not loops:
+        # `basis = [Shell(...) for <atoms> for <shells>]`: the same two loops, the list is built in iteration order
+        comps = [n for n in ast.walk(fn) if isinstance(n, ast.ListComp) and n.elt is call and len(n.generators) == 2
+                 and not any(g.ifs for g in n.generators)]
+        asg = [st for st in ast.walk(fn) if isinstance(st, ast.Assign) and comps and st.value is comps[0] and len(st.targets) == 1
+               and isinstance(st.targets[0], ast.Name)]
+        rts = [st for st in ast.walk(fn) if isinstance(st, ast.Return) and comps and st.value is not None and
+               (st.value is comps[0] or (isinstance(st.value, ast.Call) and st.value.args and st.value.args[0] is comps[0]))]
+        if len(comps) == 1 and (asg or rts):
+            g0, g1 = comps[0].generators
+            inner_for = ast.For(target=g1.target, iter=g1.iter, body=[ast.Expr(value=call)], orelse=[])
+            outer_for = ast.For(target=g0.target, iter=g0.iter, body=[inner_for], orelse=[])
+            for node_ in (inner_for, outer_for):
+                ast.copy_location(node_, comps[0])
+            loops = [outer_for, inner_for]
+            comp_list = asg[0].targets[0].id if asg else "<returned comprehension>"
     if len(loops) != 2:
         raise AnalysisError("P6", f"expected the shell constructor inside two nested loops (atoms, shells), found {len(loops)}", f.where(call))
     outer, inner = loops
@@ -646,12 +738,12 @@ def rule_make_contractions(repo, f, R):
                 where=f.where(call), expected=v, found=got)
     # appended in loop order to the returned list, no reordering
     app = [c for c in calls_in(fn, attr="append") if any(n is call for n in ast.walk(c))]
-    R.check(len(app) == 1, "P6", f.site, "basis.append(shell)", "the shell must be appended to the result list inside the inner loop",
+    R.check(len(app) == 1 or comp_list is not None, "P6", f.site, "basis.append(shell)", "the shell must be appended to the result list inside the inner loop",
             where=f.where(call))
-    if app:
-        lst = ast.unparse(app[0].func.value)
+    if app or comp_list is not None:
+        lst = ast.unparse(app[0].func.value) if app else comp_list
         rets = [n for n in walk_no_nested(fn) if isinstance(n, ast.Return) and n.value is not None]
-        okr = all(ast.unparse(r.value) in (lst, f"tuple({lst})", f"list({lst})") for r in rets) and rets
+        okr = (all(ast.unparse(r.value) in (lst, f"tuple({lst})", f"list({lst})") for r in rets) and rets) or lst == "<returned comprehension>"
         R.check(okr, "P6", f.site, "return " + (ast.unparse(rets[-1].value) if rets else "?"),
                 "the function must return the shells in construction order", where=f.where(rets[-1]) if rets else f.where(),
                 expected=f"tuple({lst})")
@@ -864,6 +956,7 @@ def run(repo, R):
     R.rule("P8", "operations on coord_types stay within the Sequence protocol (list or tuple accepted, nothing consumed)")
     R.rule("PYSCF", "from_pyscf unpacks [l, [exp, c1, c2...], ...] records: l, column 0, columns 1:, per atom in _atom order")
     R.rule("E1", "the import functions do not mutate their arguments (EFFECTS)")
+    _REPO[:] = [repo]
     nw = repo.func("gbasis.parsers.parse_nwchem")
     gbs = repo.func("gbasis.parsers.parse_gbs")
     mk = repo.func("gbasis.parsers.make_contractions")
